@@ -9,15 +9,17 @@
     manifest_exact_ordered      member names = mimetype :: (paths of the manifest's file entries, same order) ++ [manifest]
     manifest_exact              … hence a permutation of the names minus mimetype and the manifest (multiset)
     folder_entries              which entries are folder entries: "/", every object folder, "Thumbnails/", None-extras
-    folder_iff_slash  [DocOK]   … and these are exactly the manifest paths ending in "/"
+    folder_iff_slash  [DocOK, plainHrefs]   … and these are exactly the manifest paths ending in "/"
     root_and_object_mediatypes  "/" carries the document's media type, every object folder its object's
     parts_present               every object's styles/content/(settings).xml under its folder, holding its own part
     pictures_present            every registered picture under folder ++ href, stored, its bytes, its media type
     names_nodup       [DocOK]   no member name twice
-    manifest_nodup    [DocOK]   no manifest path twice (exactly one root entry)
+    manifest_nodup    [DocOK, plainHrefs]   no manifest path twice (exactly one root entry)
     register_nodup              the registry is a dict: hrefs pairwise distinct by construction
-    load_docOK_partial [LoadClean]  what `load` guarantees of DocOK; the full statement is false:
-    finding_root_entry_twice_after_load, finding_reserved_name_twice_after_load, not_loadedSavesClean
+    load_docOK                  every document built by `load` (any package) satisfies DocOK (full strength since fix 87ffca7)
+    loaded_names_nodup          … hence no member name twice after load + save
+    loaded_manifest_nodup_partial [NoPictureDirs]  no manifest path twice / folder entries = paths ending in "/" after load + save
+    root_entry_once_after_load, reserved_name_once_after_load   the former findings KF-C03-1/2, now proved absent
 -/
 import OdfModel.Pkg
 namespace OdfModel.Props.C03
@@ -436,8 +438,10 @@ def startsObj (s : Str) : Bool := s.take 7 == sObjectSp
 /-- ends with "/" -/
 def endsSlash (s : Str) : Bool := s.getLast? == some 47
 
-/-- a picture href: not a generated name, not inside an object folder, not a directory name, not empty -/
-def hrefOK (h : Str) : Bool := !reserved.contains h && !startsObj h && !endsSlash h && !h.isEmpty
+/-- a picture href: not a generated name, not inside an object folder -/
+def hrefOK (h : Str) : Bool := !reserved.contains h && !startsObj h
+/-- a picture href that does not look like a directory: not ending in "/", not empty -/
+def hrefPlain (h : Str) : Bool := !endsSlash h && !h.isEmpty
 
 def picsOK (ps : List Pic) : Bool := decide (ps.map (·.href)).Nodup && ps.all (fun p => hrefOK p.href)
 
@@ -447,6 +451,16 @@ def treeOK : Doc → Bool
 def treeOKs : List Doc → Bool
   | [] => true
   | c :: cs => treeOK c && treeOKs cs
+end
+
+mutual
+/-- **`plainHrefs d`** — the extra decidable hypothesis of `folder_iff_slash` / `manifest_nodup`: no picture
+    href of any document of the tree ends in "/" or is empty -/
+def plainHrefs : Doc → Bool
+  | ⟨_, _, _, pics, _, _, _, kids⟩ => pics.all (fun p => hrefPlain p.href) && plainHrefsK kids
+def plainHrefsK : List Doc → Bool
+  | [] => true
+  | c :: cs => plainHrefs c && plainHrefsK cs
 end
 
 /-- the extras that `save` writes -/
@@ -460,7 +474,7 @@ def extraOK (hrefs : List Str) (e : Extra) : Bool :=
 
 /-- **`DocOK d`** — the decidable well-formedness hypothesis of `names_nodup` and `manifest_nodup`:
     in every document of the tree the picture hrefs are pairwise distinct (they are dict keys), none
-    is a generated name, begins with "Object ", ends with "/" or is empty; the extras of the top document have
+    is a generated name or begins with "Object "; the extras of the top document have
     pairwise distinct names, none generated, none beginning with "Object ", none equal to a picture
     href of the top document, to "/" or to "Thumbnails/", and content None exactly for names ending
     in "/". -/
@@ -566,7 +580,7 @@ theorem nodup_rel (d : Doc) (h : treeOK d = true) : (relNames d).Nodup := by
       simp only [hrefOK, Bool.and_eq_true, Bool.not_eq_true'] at this
       have hr : reserved.contains a = true := by
         rcases mem_ownXml ha with rfl | rfl | rfl <;> decide
-      rw [this.1.1.1] at hr; cases hr
+      rw [this.1] at hr; cases hr
     · intro a ha b hb hab
       subst hab
       have hs' := hK a hb
@@ -576,7 +590,7 @@ theorem nodup_rel (d : Doc) (h : treeOK d = true) : (relNames d).Nodup := by
         rw [this] at hs'; cases hs'
       · have := hH a ha
         simp only [hrefOK, Bool.and_eq_true, Bool.not_eq_true'] at this
-        rw [this.1.1.2] at hs'; cases hs'
+        rw [this.2] at hs'; cases hs'
 theorem nodup_relK (k : Nat) (ds : List Doc) (h : treeOKs ds = true) : (relNamesK k ds).Nodup := by
   cases ds with
   | nil => simp [relNamesK]
@@ -677,7 +691,7 @@ theorem names_nodup (d : Doc) (h : DocOK d = true) : (names (save d)).Nodup := b
     · simp at hm; rcases hm with rfl | rfl | rfl <;> simp_all
     · have := hhref n hm
       simp only [hrefOK, Bool.and_eq_true, Bool.not_eq_true'] at this
-      rw [this.1.1.1] at hr; cases hr
+      rw [this.1] at hr; cases hr
     · rw [hs] at hm; cases hm
   -- what is known about the names of the extras
   have hE : ∀ n ∈ names (extrasOut d.extras),
@@ -804,7 +818,7 @@ theorem slashOK_saveXmlKids (F : Str) (k : Nat) (ds : List Doc) : SlashOK (saveX
     exact SlashOK.append (slashOK_saveXml false _ c (Or.inr (endsSlash_objPrefix F k))) (slashOK_saveXmlKids F (k+1) cs)
 end
 
-theorem slashOK_picsOut (F : Str) (ps : List Pic) (h : ∀ p ∈ ps, hrefOK p.href = true) : SlashOK (picsOut F ps) := by
+theorem slashOK_picsOut (F : Str) (ps : List Pic) (h : ∀ p ∈ ps, hrefPlain p.href = true) : SlashOK (picsOut F ps) := by
   induction ps with
   | nil => exact slashOK_empty
   | cons p ps ih =>
@@ -813,22 +827,22 @@ theorem slashOK_picsOut (F : Str) (ps : List Pic) (h : ∀ p ∈ ps, hrefOK p.hr
     intro e he
     simp [picOut] at he; subst he
     have := h p List.mem_cons_self
-    simp only [hrefOK, Bool.and_eq_true, Bool.not_eq_true', List.isEmpty_eq_false_iff] at this
-    simp [endsSlash_append F p.href this.2, this.1.2]
+    simp only [hrefPlain, Bool.and_eq_true, Bool.not_eq_true', List.isEmpty_eq_false_iff] at this
+    simp [endsSlash_append F p.href this.2, this.1]
 
 mutual
-theorem slashOK_savePics (F : Str) (d : Doc) (h : treeOK d = true) : SlashOK (savePics F d) := by
+theorem slashOK_savePics (F : Str) (d : Doc) (h : plainHrefs d = true) : SlashOK (savePics F d) := by
   cases d with
   | mk id mt hs pics th ex fo kids =>
-    simp only [treeOK, picsOK, Bool.and_eq_true, decide_eq_true_eq, List.all_eq_true] at h
+    simp only [plainHrefs, Bool.and_eq_true, List.all_eq_true] at h
     simp only [savePics]
-    exact SlashOK.append (slashOK_picsOut F pics h.1.2) (slashOK_savePicsKids F 1 kids h.2)
-theorem slashOK_savePicsKids (F : Str) (k : Nat) (ds : List Doc) (h : treeOKs ds = true) :
+    exact SlashOK.append (slashOK_picsOut F pics h.1) (slashOK_savePicsKids F 1 kids h.2)
+theorem slashOK_savePicsKids (F : Str) (k : Nat) (ds : List Doc) (h : plainHrefsK ds = true) :
     SlashOK (savePicsKids F k ds) := by
   cases ds with
   | nil => exact slashOK_empty
   | cons c cs =>
-    simp only [treeOKs, Bool.and_eq_true] at h
+    simp only [plainHrefsK, Bool.and_eq_true] at h
     simp only [savePicsKids]
     exact SlashOK.append (slashOK_savePics _ c h.1) (slashOK_savePicsKids F (k+1) cs h.2)
 end
@@ -851,12 +865,13 @@ theorem slashOK_extrasOut (hrefs : List Str) (es : List Extra)
       | none => simp [hx, hcc] at he; subst he; simpa [hcc] using hc
       | some b => simp [hx, hcc] at he; subst he; simpa [hcc] using hc
 
-/-- **C03 (folder entries, syntactically)**: under `DocOK d` a manifest entry is one of the folder
+/-- **C03 (folder entries, syntactically)**: under `DocOK d` and `plainHrefs d` a manifest entry is one of the folder
     entries of `folder_entries` exactly when its path ends in "/" — so a reader of the package can tell
     the two kinds apart, and `manifest_exact` speaks about all paths not ending in "/". -/
-theorem folder_iff_slash (d : Doc) (h : DocOK d = true) : ∀ e ∈ (save d).man, e.isFolder = endsSlash e.path := by
+theorem folder_iff_slash (d : Doc) (h : DocOK d = true) (hp : plainHrefs d = true) :
+    ∀ e ∈ (save d).man, e.isFolder = endsSlash e.path := by
   simp only [DocOK, Bool.and_eq_true, decide_eq_true_eq, List.all_eq_true] at h
-  obtain ⟨⟨hT, _⟩, hEok⟩ := h
+  obtain ⟨_, hEok⟩ := h
   have hx : SlashOK (extrasOut d.extras) := by
     apply slashOK_extrasOut (d.pictures.map (·.href))
     intro e he hne
@@ -867,7 +882,7 @@ theorem folder_iff_slash (d : Doc) (h : DocOK d = true) : ∀ e ∈ (save d).man
     | some b => intro e he; simp [thumbOut] at he; rcases he with rfl | rfl <;> decide
   have h0 : ∀ z, SlashOK (emZ z) := by intro z e he; simp at he
   exact SlashOK.append (SlashOK.append (SlashOK.append (SlashOK.append (SlashOK.append (h0 _)
-    (slashOK_saveXml true [] d (Or.inl rfl))) (slashOK_savePics [] d hT)) hth) hx) (h0 _)
+    (slashOK_saveXml true [] d (Or.inl rfl))) (slashOK_savePics [] d hp)) hth) hx) (h0 _)
 
 
 mutual
@@ -943,11 +958,11 @@ theorem extraFolder_paths (es : List Extra) :
 /-- all manifest paths, in order -/
 def paths (o : Out) : List Str := o.man.map (·.path)
 
-/-- **C03 (no manifest path twice; in particular exactly one root entry)**: under `DocOK d` the
+/-- **C03 (no manifest path twice; in particular exactly one root entry)**: under `DocOK d` and `plainHrefs d` the
     manifest of the saved package lists every path once — file entries and folder entries, object
     trees of any depth. -/
-theorem manifest_nodup (d : Doc) (h : DocOK d = true) : (paths (save d)).Nodup := by
-  have hsl := folder_iff_slash d h
+theorem manifest_nodup (d : Doc) (h : DocOK d = true) (hp : plainHrefs d = true) : (paths (save d)).Nodup := by
+  have hsl := folder_iff_slash d h hp
   have hnames := names_nodup d h
   rw [manifest_exact_ordered] at hnames
   have hfiles : (filePaths (save d)).Nodup :=
@@ -1071,23 +1086,20 @@ def sampleDoc : Doc :=
     [⟨1, sOdt, false, [⟨sPictures ++ [97], .file [102], []⟩], none, [], [], [⟨2, sOdt, true, [⟨sPictures ++ [98], .image [], []⟩], none, [], [], []⟩]⟩,
      ⟨3, sOdt, false, [], none, [], [], []⟩]⟩
 
-/-- `DocOK` is satisfiable (by a document that exercises every clause) -/
-theorem docOK_sample : DocOK sampleDoc = true := by decide
+/-- `DocOK` and `plainHrefs` are satisfiable (by a document that exercises every clause) -/
+theorem docOK_sample : DocOK sampleDoc = true ∧ plainHrefs sampleDoc = true := by decide
 
-/-- the full-strength statement one would like for documents that come from `load`:
-    every package that loads gives a document whose saved form has no name and no manifest path twice -/
-def LoadedSavesClean : Prop :=
-  ∀ p d, load p = some d → (names (save d)).Nodup ∧ (paths (save d)).Nodup
+/-! ### what `load` guarantees (code as of fix 87ffca7: "/", "Thumbnails/", mimetype and the manifest are
+     no longer kept as extras) -/
 
 /-- the smallest conforming package: mimetype member, root entry, content.xml, styles.xml -/
 def pkgMinimal : Package :=
   ⟨some sOdt, [(sSlash, sOdt), (sContent, sTextXml), (sStyles, sTextXml)], [(sContent, [60]), (sStyles, [60])], []⟩
 
-/-- **finding KF-C03-1** (`sig=duplicate-folder-entry-after-load`): `load` keeps the root entry "/" as an
-    extra, so saving the loaded document lists "/" twice. -/
-theorem finding_root_entry_twice_after_load :
+/-- (was finding KF-C03-1, repaired in 87ffca7) the root entry is listed once after load + save -/
+theorem root_entry_once_after_load :
     (load pkgMinimal).map (fun d => (decide (paths (save d)).Nodup, DocOK d,
-        (paths (save d)).count sSlash)) = some (false, false, 2) := by
+        (paths (save d)).count sSlash)) = some (true, true, 1) := by
   decide
 
 /-- the same package with a manifest that also lists `mimetype` -/
@@ -1095,36 +1107,12 @@ def pkgListsMimetype : Package :=
   ⟨some sOdt, [(sContent, sTextXml), (sStyles, sTextXml), (sMimetype, [])],
     [(sMimetype, [97]), (sContent, [60]), (sStyles, [60])], []⟩
 
-/-- **finding KF-C03-2** (`sig=reserved-name-listed-in-loaded-manifest`): a manifest that lists
-    `mimetype` makes it an extra, and the saved package has two members of that name. -/
-theorem finding_reserved_name_twice_after_load :
+/-- (was finding KF-C03-2, repaired in 87ffca7) a manifest that lists `mimetype` no longer produces a
+    second member of that name -/
+theorem reserved_name_once_after_load :
     (load pkgListsMimetype).map (fun d => (decide (names (save d)).Nodup, DocOK d,
-        (names (save d)).count sMimetype)) = some (false, false, 2) := by
+        (names (save d)).count sMimetype)) = some (true, true, 1) := by
   decide
-
-theorem not_loadedSavesClean : ¬ LoadedSavesClean := by
-  intro h
-  have h1 := finding_root_entry_twice_after_load
-  cases hl : load pkgMinimal with
-  | none => rw [hl] at h1; cases h1
-  | some d =>
-    rw [hl] at h1
-    have := (h pkgMinimal d hl).2
-    simp only [Option.map_some, Option.some.injEq, Prod.mk.injEq] at h1
-    have h2 := h1.1
-    simp [this] at h2
-
-
-/-! ### what `load` guarantees of `DocOK` (and where it does not: the two findings above) -/
-
-/-- a manifest key that `load` turns into something `save` can write back without a clash -/
-def cleanKey (k : Str) : Bool :=
-  k != sSlash && k != sThumbDir && k != sMimetype && k != sManifestPath && !(isPicturePath k && endsSlash k)
-
-/-- **the decidable hypothesis of `load_docOK_partial`**: the manifest lists neither the root entry "/"
-    nor "Thumbnails/" (excluded: finding KF-C03-1 — i.e. every conforming package is excluded), nor
-    `mimetype` or `META-INF/manifest.xml` (KF-C03-2), nor a directory below "Pictures/" -/
-def LoadClean (p : Package) : Bool := ((manifestlist p.manifest).map (·.1)).all cleanKey
 
 theorem dictSet_keys (d : List (Str × Str)) (k v : Str) :
     (dictSet d k v).map (·.1) = if d.any (fun e => e.1 == k) then d.map (·.1) else d.map (·.1) ++ [k] := by
@@ -1161,8 +1149,20 @@ theorem manifestlist_nodup (raw : List (Str × Str)) : ((manifestlist raw).map (
       simp only [List.any_eq_true]
       exact ⟨q, hq, by simp [hqe]⟩
 
-def PicsGood (ps : List Pic) : Prop :=
+/-- a manifest key that is not a directory below "Pictures/" -/
+def noPicDir (k : Str) : Bool := !(isPicturePath k && endsSlash k)
+
+/-- **the one hypothesis that remains for loaded documents** (needed for `plainHrefs` only): the manifest
+    lists no directory below "Pictures/" ("Pictures/sub/").  `load` registers such an entry, when the zip
+    has the directory member, as a zero-byte picture whose href ends in "/"; it is saved back
+    consistently (member and manifest entry "Pictures/sub/"), but then a path ending in "/" is not a
+    folder entry in the sense of `folder_entries`. -/
+def NoPictureDirs (p : Package) : Bool := ((manifestlist p.manifest).map (·.1)).all noPicDir
+
+/-- loop invariants; `plain = true` additionally tracks `hrefPlain` -/
+def PicsGood (plain : Bool) (ps : List Pic) : Prop :=
   (ps.map (·.href)).Nodup ∧ ∀ q ∈ ps, hrefOK q.href = true ∧ isPicturePath q.href = true
+    ∧ (plain = true → hrefPlain q.href = true)
 def KidsGood (ks : List Doc) : Prop := ∀ c ∈ ks, c.pictures = [] ∧ c.children = []
 def ExtrasGood (xs : List Extra) : Prop :=
   ∀ x ∈ xs, reserved.contains x.filename = false ∧ startsObj x.filename = false ∧ isPicturePath x.filename = false
@@ -1181,8 +1181,9 @@ theorem register_mem (ps : List Pic) (p q : Pic) (h : q ∈ register ps p) : q =
     · exact Or.inr h
     · exact Or.inl h
 
-theorem register_good (ps : List Pic) (p : Pic) (h : PicsGood ps) (h1 : hrefOK p.href = true)
-    (h2 : isPicturePath p.href = true) : PicsGood (register ps p) := by
+theorem register_good (plain : Bool) (ps : List Pic) (p : Pic) (h : PicsGood plain ps) (h1 : hrefOK p.href = true)
+    (h2 : isPicturePath p.href = true) (h3 : plain = true → hrefPlain p.href = true) :
+    PicsGood plain (register ps p) := by
   refine ⟨?_, ?_⟩
   · rw [register_hrefs]
     split
@@ -1199,10 +1200,10 @@ theorem register_good (ps : List Pic) (p : Pic) (h : PicsGood ps) (h1 : hrefOK p
       exact ⟨q, hq, by simp [hqe]⟩
   · intro q hq
     rcases register_mem ps p q hq with rfl | hq
-    · exact ⟨h1, h2⟩
+    · exact ⟨h1, h2, h3⟩
     · exact h.2 q hq
 
-theorem picturePath_hrefOK (m : Str) (hp : isPicturePath m = true) (hc : cleanKey m = true) : hrefOK m = true := by
+theorem picturePath_hrefOK (m : Str) (hp : isPicturePath m = true) : hrefOK m = true := by
   simp only [isPicturePath, Bool.and_eq_true, beq_iff_eq, decide_eq_true_eq] at hp
   have hres : reserved.contains m = false := by
     cases hr : reserved.contains m with
@@ -1214,22 +1215,23 @@ theorem picturePath_hrefOK (m : Str) (hp : isPicturePath m = true) (hc : cleanKe
   have hobj : startsObj m = false := by
     have : m.take 7 = (m.take 9).take 7 := by simp [List.take_take]
     simp only [startsObj, this, hp.1]; decide
+  simp only [hrefOK, hres, hobj, Bool.not_false, Bool.and_self]
+
+theorem picturePath_plain (m : Str) (hp : isPicturePath m = true) (hc : noPicDir m = true) : hrefPlain m = true := by
   have hne : m.isEmpty = false := by
     cases m with
-    | nil => simp at hp
+    | nil => simp [isPicturePath] at hp
     | cons a b => rfl
   have hsl : endsSlash m = false := by
-    simp only [cleanKey, Bool.and_eq_true, Bool.not_eq_true', Bool.and_eq_false_iff] at hc
-    rcases hc.2 with h | h
-    · simp [isPicturePath, hp.1, hp.2] at h
-    · exact h
-  simp only [hrefOK, hres, hobj, hne, hsl, Bool.not_false, Bool.and_self]
+    simp only [noPicDir, hp, Bool.true_and, Bool.not_eq_true'] at hc
+    exact hc
+  simp only [hrefPlain, hne, hsl, Bool.not_false, Bool.and_self]
 
 /-- one iteration of the dispatch loop keeps the invariants and adds at most the extra named by the key -/
-theorem loadEntry_good (p : Package) (keys : List Str) (s s1 : LoadSt) (e : Str × Str)
-    (h : loadEntry p keys s e = some s1) (hc : cleanKey e.1 = true)
-    (hP : PicsGood s.pics) (hK : KidsGood s.kids) (hX : ExtrasGood s.extras) :
-    PicsGood s1.pics ∧ KidsGood s1.kids ∧ ExtrasGood s1.extras
+theorem loadEntry_good (plain : Bool) (p : Package) (keys : List Str) (s s1 : LoadSt) (e : Str × Str)
+    (h : loadEntry p keys s e = some s1) (hc : plain = true → noPicDir e.1 = true)
+    (hP : PicsGood plain s.pics) (hK : KidsGood s.kids) (hX : ExtrasGood s.extras) :
+    PicsGood plain s1.pics ∧ KidsGood s1.kids ∧ ExtrasGood s1.extras
       ∧ (s1.extras = s.extras ∨ ∃ c, s1.extras = s.extras ++ [⟨e.1, e.2, c⟩]) := by
   unfold loadEntry at h
   simp only at h
@@ -1240,7 +1242,8 @@ theorem loadEntry_good (p : Package) (keys : List Str) (s s1 : LoadSt) (e : Str 
     | some b =>
       simp only [hz, Option.some.injEq] at h
       subst h
-      exact ⟨register_good _ _ hP (picturePath_hrefOK e.1 h1 hc) h1, hK, hX, Or.inl rfl⟩
+      exact ⟨register_good plain _ _ hP (picturePath_hrefOK e.1 h1) h1 (fun hpl => picturePath_plain e.1 h1 (hc hpl)),
+        hK, hX, Or.inl rfl⟩
   · simp only [h1, Bool.false_eq_true, ↓reduceIte] at h
     by_cases h2 : (e.1 == sThumb) = true
     · simp only [h2, if_true] at h
@@ -1255,78 +1258,81 @@ theorem loadEntry_good (p : Package) (keys : List Str) (s s1 : LoadSt) (e : Str 
       · simp only [h3, if_true, Option.some.injEq] at h
         subst h; exact ⟨hP, hK, hX, Or.inl rfl⟩
       · simp only [h3, Bool.false_eq_true, ↓reduceIte] at h
-        by_cases h4 : isObjectFolder e.1 = true
-        · simp only [h4, if_true, Option.some.injEq] at h
-          subst h
-          refine ⟨hP, ?_, hX, Or.inl rfl⟩
-          intro c hcm
-          simp only [List.mem_append, List.mem_singleton] at hcm
-          rcases hcm with hcm | hcm
-          · exact hK c hcm
-          · subst hcm; exact ⟨rfl, rfl⟩
-        · simp only [h4, Bool.false_eq_true, ↓reduceIte] at h
-          by_cases h5 : (e.1.take 7 == sObjectSp) = true
-          · simp only [h5, if_true, Option.some.injEq] at h
-            subst h; exact ⟨hP, hK, hX, Or.inl rfl⟩
-          · simp only [h5, Bool.false_eq_true, ↓reduceIte] at h
-            -- the extra: common facts about its name
-            have hres : reserved.contains e.1 = false := by
-              cases hr : reserved.contains e.1 with
-              | false => rfl
-              | true =>
-                exfalso
-                simp only [cleanKey, Bool.and_eq_true, bne_iff_ne] at hc
-                simp [reserved] at hr
-                rcases hr with hr | hr | hr | hr | hr | hr | hr
-                · exact h3 (by simp [isXmlPart, hr])
-                · exact h3 (by simp [isXmlPart, hr])
-                · exact h3 (by simp [isXmlPart, hr])
-                · exact h3 (by simp [isXmlPart, hr])
-                · exact hc.1.1.2 hr
-                · exact h2 (by simp [hr])
-                · exact hc.1.2 hr
-            have hobj : startsObj e.1 = false := by simpa [startsObj] using h5
-            have hpic : isPicturePath e.1 = false := by simpa using h1
-            have hne : e.1 ≠ sSlash ∧ e.1 ≠ sThumbDir := by
-              simp only [cleanKey, Bool.and_eq_true, bne_iff_ne] at hc
-              exact ⟨hc.1.1.1.1, hc.1.1.1.2⟩
-            cases hl : e.1.getLast? with
-            | none => simp [hl] at h
-            | some c =>
-              simp only [hl] at h
-              by_cases h6 : (c == 47) = true
-              · simp only [h6, if_true, Option.some.injEq] at h
-                subst h
-                refine ⟨hP, hK, ?_, Or.inr ⟨none, rfl⟩⟩
-                intro x hx
-                simp only [List.mem_append, List.mem_singleton] at hx
-                rcases hx with hx | hx
-                · exact hX x hx
-                · subst hx
-                  refine ⟨hres, hobj, hpic, hne.1, hne.2, ?_⟩
-                  have : c = 47 := by simpa using h6
-                  simp [endsSlash, hl, this]
-              · simp only [h6, Bool.false_eq_true, ↓reduceIte] at h
-                cases hz : zread p.members e.1 with
-                | none => simp [hz] at h
-                | some b =>
-                  simp only [hz, Option.some.injEq] at h
+        by_cases hr : isRegenerated e.1 = true
+        · simp only [hr, if_true, Option.some.injEq] at h
+          subst h; exact ⟨hP, hK, hX, Or.inl rfl⟩
+        · simp only [hr, Bool.false_eq_true, ↓reduceIte] at h
+          by_cases h4 : isObjectFolder e.1 = true
+          · simp only [h4, if_true, Option.some.injEq] at h
+            subst h
+            refine ⟨hP, ?_, hX, Or.inl rfl⟩
+            intro c hcm
+            simp only [List.mem_append, List.mem_singleton] at hcm
+            rcases hcm with hcm | hcm
+            · exact hK c hcm
+            · subst hcm; exact ⟨rfl, rfl⟩
+          · simp only [h4, Bool.false_eq_true, ↓reduceIte] at h
+            by_cases h5 : (e.1.take 7 == sObjectSp) = true
+            · simp only [h5, if_true, Option.some.injEq] at h
+              subst h; exact ⟨hP, hK, hX, Or.inl rfl⟩
+            · simp only [h5, Bool.false_eq_true, ↓reduceIte] at h
+              -- the extra: common facts about its name
+              have hreg : e.1 ≠ sSlash ∧ e.1 ≠ sThumbDir ∧ e.1 ≠ sMimetype ∧ e.1 ≠ sManifestPath := by
+                simp only [isRegenerated, Bool.or_eq_true, beq_iff_eq, not_or] at hr
+                exact ⟨hr.1.1.1, hr.1.1.2, hr.1.2, hr.2⟩
+              have hres : reserved.contains e.1 = false := by
+                cases hrs : reserved.contains e.1 with
+                | false => rfl
+                | true =>
+                  exfalso
+                  simp [reserved] at hrs
+                  rcases hrs with hrs | hrs | hrs | hrs | hrs | hrs | hrs
+                  · exact h3 (by simp [isXmlPart, hrs])
+                  · exact h3 (by simp [isXmlPart, hrs])
+                  · exact h3 (by simp [isXmlPart, hrs])
+                  · exact h3 (by simp [isXmlPart, hrs])
+                  · exact hreg.2.2.1 hrs
+                  · exact h2 (by simp [hrs])
+                  · exact hreg.2.2.2 hrs
+              have hobj : startsObj e.1 = false := by simpa [startsObj] using h5
+              have hpic : isPicturePath e.1 = false := by simpa using h1
+              cases hl : e.1.getLast? with
+              | none => simp [hl] at h
+              | some c =>
+                simp only [hl] at h
+                by_cases h6 : (c == 47) = true
+                · simp only [h6, if_true, Option.some.injEq] at h
                   subst h
-                  refine ⟨hP, hK, ?_, Or.inr ⟨some b, rfl⟩⟩
+                  refine ⟨hP, hK, ?_, Or.inr ⟨none, rfl⟩⟩
                   intro x hx
                   simp only [List.mem_append, List.mem_singleton] at hx
                   rcases hx with hx | hx
                   · exact hX x hx
                   · subst hx
-                    refine ⟨hres, hobj, hpic, hne.1, hne.2, ?_⟩
-                    have : c ≠ 47 := by simpa using h6
+                    refine ⟨hres, hobj, hpic, hreg.1, hreg.2.1, ?_⟩
+                    have : c = 47 := by simpa using h6
                     simp [endsSlash, hl, this]
+                · simp only [h6, Bool.false_eq_true, ↓reduceIte] at h
+                  cases hz : zread p.members e.1 with
+                  | none => simp [hz] at h
+                  | some b =>
+                    simp only [hz, Option.some.injEq] at h
+                    subst h
+                    refine ⟨hP, hK, ?_, Or.inr ⟨some b, rfl⟩⟩
+                    intro x hx
+                    simp only [List.mem_append, List.mem_singleton] at hx
+                    rcases hx with hx | hx
+                    · exact hX x hx
+                    · subst hx
+                      refine ⟨hres, hobj, hpic, hreg.1, hreg.2.1, ?_⟩
+                      have : c ≠ 47 := by simpa using h6
+                      simp [endsSlash, hl, this]
 
-theorem loadLoop_good (p : Package) (keys : List Str) : ∀ (es : List (Str × Str)) (s s' : LoadSt),
-    loadLoop p keys s es = some s' → (∀ e ∈ es, cleanKey e.1 = true) → (es.map (·.1)).Nodup →
-    PicsGood s.pics → KidsGood s.kids → ExtrasGood s.extras → (s.extras.map (·.filename)).Nodup →
+theorem loadLoop_good (plain : Bool) (p : Package) (keys : List Str) : ∀ (es : List (Str × Str)) (s s' : LoadSt),
+    loadLoop p keys s es = some s' → (∀ e ∈ es, plain = true → noPicDir e.1 = true) → (es.map (·.1)).Nodup →
+    PicsGood plain s.pics → KidsGood s.kids → ExtrasGood s.extras → (s.extras.map (·.filename)).Nodup →
     (∀ x ∈ s.extras, x.filename ∉ es.map (·.1)) →
-    PicsGood s'.pics ∧ KidsGood s'.kids ∧ ExtrasGood s'.extras ∧ (s'.extras.map (·.filename)).Nodup := by
+    PicsGood plain s'.pics ∧ KidsGood s'.kids ∧ ExtrasGood s'.extras ∧ (s'.extras.map (·.filename)).Nodup := by
   intro es
   induction es with
   | nil =>
@@ -1340,7 +1346,7 @@ theorem loadLoop_good (p : Package) (keys : List Str) : ∀ (es : List (Str × S
     | none => simp [h1] at h
     | some s1 =>
       simp only [h1] at h
-      obtain ⟨gP, gK, gX, gE⟩ := loadEntry_good p keys s s1 e h1 (hc e List.mem_cons_self) hP hK hX
+      obtain ⟨gP, gK, gX, gE⟩ := loadEntry_good plain p keys s s1 e h1 (hc e List.mem_cons_self) hP hK hX
       simp only [List.map_cons, List.nodup_cons] at hnd
       refine ih s1 s' h (fun x hx => hc x (List.mem_cons_of_mem _ hx)) hnd.2 gP gK gX ?_ ?_
       · rcases gE with gE | ⟨c, gE⟩
@@ -1362,28 +1368,24 @@ theorem loadLoop_good (p : Package) (keys : List Str) : ∀ (es : List (Str × S
           · intro hm; exact hfresh x hx (List.mem_cons_of_mem _ hm)
           · subst hx; exact hnd.1
 
-theorem treeOKs_of_kidsGood : ∀ (ks : List Doc), KidsGood ks → treeOKs ks = true := by
+theorem treeOKs_of_kidsGood : ∀ (ks : List Doc), KidsGood ks → treeOKs ks = true ∧ plainHrefsK ks = true := by
   intro ks
   induction ks with
-  | nil => intro _; simp [treeOKs]
+  | nil => intro _; simp [treeOKs, plainHrefsK]
   | cons c cs ih =>
     intro h
     have hc := h c List.mem_cons_self
+    have ih' := ih (fun x hx => h x (List.mem_cons_of_mem _ hx))
     cases c with
     | mk id mt hs pics th ex fo kids =>
       simp only at hc
       obtain ⟨rfl, rfl⟩ := hc
-      simp only [treeOKs, treeOK, Bool.and_eq_true]
-      exact ⟨by decide, ih (fun x hx => h x (List.mem_cons_of_mem _ hx))⟩
+      simp only [treeOKs, treeOK, plainHrefsK, plainHrefs, Bool.and_eq_true]
+      exact ⟨⟨by decide, ih'.1⟩, ⟨by decide, ih'.2⟩⟩
 
-/-- FULL STATEMENT one would like: `∀ p d, load p = some d → DocOK d = true` — false, see
-    `finding_root_entry_twice_after_load` / `finding_reserved_name_twice_after_load`.
-    **C03 (what `load` guarantees, proved part)**: if the manifest of the package lists none of "/",
-    "Thumbnails/", `mimetype`, `META-INF/manifest.xml` and no directory below "Pictures/"
-    (`LoadClean`), the document that `load` builds satisfies `DocOK` — so `names_nodup`,
-    `manifest_nodup`, `folder_iff_slash` apply to what is saved from it. -/
-theorem load_docOK_partial (p : Package) (d : Doc) (hc : LoadClean p = true) (hl : load p = some d) :
-    DocOK d = true := by
+/-- everything `load` establishes, with or without the `NoPictureDirs` hypothesis -/
+theorem load_good (plain : Bool) (p : Package) (d : Doc) (hc : plain = true → NoPictureDirs p = true)
+    (hl : load p = some d) : DocOK d = true ∧ (plain = true → plainHrefs d = true) := by
   unfold load at hl
   simp only at hl
   cases h : loadLoop p ((manifestlist p.manifest).map (·.1)) ⟨[], none, [], []⟩ (manifestlist p.manifest) with
@@ -1391,40 +1393,75 @@ theorem load_docOK_partial (p : Package) (d : Doc) (hc : LoadClean p = true) (hl
   | some s =>
     simp only [h, Option.some.injEq] at hl
     subst hl
-    have hkeys : ∀ e ∈ manifestlist p.manifest, cleanKey e.1 = true := by
-      intro e he
-      simp only [LoadClean, List.all_eq_true, List.mem_map] at hc
-      exact hc e.1 ⟨e, he, rfl⟩
-    obtain ⟨gP, gK, gX, gN⟩ := loadLoop_good p _ (manifestlist p.manifest) _ s h hkeys (manifestlist_nodup _)
+    have hkeys : ∀ e ∈ manifestlist p.manifest, plain = true → noPicDir e.1 = true := by
+      intro e he hpl
+      have := hc hpl
+      simp only [NoPictureDirs, List.all_eq_true, List.mem_map] at this
+      exact this e.1 ⟨e, he, rfl⟩
+    obtain ⟨gP, gK, gX, gN⟩ := loadLoop_good plain p _ (manifestlist p.manifest) _ s h hkeys (manifestlist_nodup _)
       ⟨by simp, by simp⟩ (by intro c hc; cases hc) (by intro x hx; cases hx) (by simp) (by intro x hx; cases hx)
-    simp only [DocOK, treeOK, picsOK, liveExtras, Bool.and_eq_true, decide_eq_true_eq, List.all_eq_true]
-    refine ⟨⟨⟨⟨gP.1, fun q hq => (gP.2 q hq).1⟩, treeOKs_of_kidsGood _ gK⟩, ?_⟩, ?_⟩
-    · exact decide_eq_true (List.Nodup.sublist (List.Sublist.map _ List.filter_sublist) gN)
-    · intro x hx
-      simp only [List.mem_filter] at hx
-      obtain ⟨h1, h2, h3, h4, h5, h6⟩ := gX x hx.1
-      have hnot : (List.map (fun q : Pic => q.href) s.pics).contains x.filename = false := by
-        cases hcn : (List.map (fun q : Pic => q.href) s.pics).contains x.filename with
-        | false => rfl
-        | true =>
-          exfalso
-          simp only [List.contains_iff_mem, List.mem_map] at hcn
-          obtain ⟨q, hq, hqe⟩ := hcn
-          have := (gP.2 q hq).2
-          rw [hqe, h3] at this; cases this
-      have e4 : (x.filename != sSlash) = true := by simpa using h4
-      have e5 : (x.filename != sThumbDir) = true := by simpa using h5
-      simp only [extraOK, h1, h2, hnot, e4, e5, h6, Bool.not_false, Bool.and_self]
+    have hk := treeOKs_of_kidsGood _ gK
+    refine ⟨?_, ?_⟩
+    · simp only [DocOK, treeOK, picsOK, liveExtras, Bool.and_eq_true, decide_eq_true_eq, List.all_eq_true]
+      refine ⟨⟨⟨⟨gP.1, fun q hq => (gP.2 q hq).1⟩, hk.1⟩, ?_⟩, ?_⟩
+      · exact decide_eq_true (List.Nodup.sublist (List.Sublist.map _ List.filter_sublist) gN)
+      · intro x hx
+        simp only [List.mem_filter] at hx
+        obtain ⟨h1, h2, h3, h4, h5, h6⟩ := gX x hx.1
+        have hnot : (List.map (fun q : Pic => q.href) s.pics).contains x.filename = false := by
+          cases hcn : (List.map (fun q : Pic => q.href) s.pics).contains x.filename with
+          | false => rfl
+          | true =>
+            exfalso
+            simp only [List.contains_iff_mem, List.mem_map] at hcn
+            obtain ⟨q, hq, hqe⟩ := hcn
+            have := (gP.2 q hq).2.1
+            rw [hqe, h3] at this; cases this
+        have e4 : (x.filename != sSlash) = true := by simpa using h4
+        have e5 : (x.filename != sThumbDir) = true := by simpa using h5
+        simp only [extraOK, h1, h2, hnot, e4, e5, h6, Bool.not_false, Bool.and_self]
+    · intro hpl
+      simp only [plainHrefs, Bool.and_eq_true, List.all_eq_true]
+      exact ⟨fun q hq => (gP.2 q hq).2.2 hpl, hk.2⟩
 
-/-- the hypothesis of `load_docOK_partial` is satisfiable by a package with a picture, an object
-    folder, a file extra and a directory extra (what it cannot have is the root entry) -/
-theorem loadClean_sample :
+/-- **C03 (`load` produces well-formed documents — full strength, no hypothesis)**: every document that
+    `load` builds, from ANY package, satisfies `DocOK`: picture hrefs distinct and not generated names,
+    extras distinct, disjoint from every generated name, from the pictures, from "/" and "Thumbnails/",
+    content None exactly for directory names. -/
+theorem load_docOK (p : Package) (d : Doc) (hl : load p = some d) : DocOK d = true :=
+  (load_good false p d (by intro h; cases h) hl).1
+
+/-- **C03 (no member name twice, loaded documents, full strength)** -/
+theorem loaded_names_nodup (p : Package) (d : Doc) (hl : load p = some d) : (names (save d)).Nodup :=
+  names_nodup d (load_docOK p d hl)
+
+/-- FULL STATEMENT wanted: `∀ p d, load p = some d → (paths (save d)).Nodup ∧ ∀ e ∈ (save d).man, e.isFolder =
+    endsSlash e.path`.  Proved under the one remaining decidable hypothesis `NoPictureDirs p` (see there;
+    without it `plainHrefs` is false — `pictureDir_sample` — although the saved package is still
+    consistent).
+    **C03 (no manifest path twice and folder entries = paths ending in "/", loaded documents)** -/
+theorem loaded_manifest_nodup_partial (p : Package) (d : Doc) (hc : NoPictureDirs p = true) (hl : load p = some d) :
+    (paths (save d)).Nodup ∧ ∀ e ∈ (save d).man, e.isFolder = endsSlash e.path := by
+  have := load_good true p d (fun _ => hc) hl
+  exact ⟨manifest_nodup d this.1 (this.2 rfl), folder_iff_slash d this.1 (this.2 rfl)⟩
+
+/-- a package with the root entry, "Thumbnails/", a picture, an object folder, a file extra and a
+    directory extra satisfies the hypothesis, loads, and saves without any path twice -/
+theorem load_sample :
     let p : Package := ⟨some sOdt,
-      [(sContent, sTextXml), (sStyles, sTextXml), (sPictures ++ [97], [105]), (objPrefix 1, sOdt),
-       (objPrefix 1 ++ sContent, sTextXml), ([120, 47, 121], []), ([120, 47], [])],
-      [(sContent, [60]), (sStyles, [60]), (sPictures ++ [97], [1]), (objPrefix 1 ++ sContent, [60]), ([120, 47, 121], [2])], []⟩
-    LoadClean p = true ∧ (load p).map DocOK = some true := by
+      [(sSlash, sOdt), (sContent, sTextXml), (sStyles, sTextXml), (sThumbDir, []), (sThumb, []), (sPictures ++ [97], [105]),
+       (objPrefix 1, sOdt), (objPrefix 1 ++ sContent, sTextXml), ([120, 47, 121], []), ([120, 47], [])],
+      [(sContent, [60]), (sStyles, [60]), (sThumb, [5]), (sPictures ++ [97], [1]), (objPrefix 1 ++ sContent, [60]), ([120, 47, 121], [2])], []⟩
+    NoPictureDirs p = true ∧ (load p).map (fun d => (DocOK d, plainHrefs d, decide (paths (save d)).Nodup)) = some (true, true, true) := by
   decide
 
+/-- the residual class: a directory entry below "Pictures/" whose zip member exists becomes a picture
+    whose href ends in "/" (`plainHrefs` false); names and paths are still pairwise distinct -/
+theorem pictureDir_sample :
+    let p : Package := ⟨some sOdt, [(sSlash, sOdt), (sContent, sTextXml), (sPictures ++ [115, 47], [])],
+      [(sContent, [60]), (sPictures ++ [115, 47], [])], []⟩
+    NoPictureDirs p = false ∧ (load p).map (fun d => (DocOK d, plainHrefs d, decide (names (save d)).Nodup,
+        decide (paths (save d)).Nodup)) = some (true, false, true, true) := by
+  decide
 
 end OdfModel.Props.C03
